@@ -293,6 +293,14 @@ def run_multitask_mll(case, ctx: Ctx):
     kappa = float(sv[0] / sv[-1])
     if not math.isfinite(kappa) or kappa > 1e8:
         raise Discard("ill-conditioned (kappa>1e8)")
+    # the Kronecker path whitens with the task-noise matrix (generalised eigen-decomposition in the dependency): its conditioning
+    # enters the rounding error like that of the full matrix
+    svd_ = torch.linalg.svdvals(MT.ref_task_noise(case2).detach())
+    kappa_d = float(svd_[0] / svd_[-1].clamp_min(1e-300))
+    if kappa_d > 1e8 and not case.get("singular_noise"):
+        raise Discard("ill-conditioned task noise (kappa>1e8) outside the singular-noise cell")
+    if not case.get("singular_noise"):
+        kappa = max(kappa, kappa_d)
     r = y.reshape(-1) - mx
     total_w = -0.5 * ((r * torch.linalg.solve(A, r)).sum() + torch.linalg.slogdet(A)[1] + n * t * math.log(2 * math.pi)) / (n * t)
     grads_w = torch.autograd.grad(total_w, leaves, allow_unused=True)
@@ -346,7 +354,9 @@ def run_sum_mll(case, ctx: Ctx):
         mll = gpytorch.mlls.SumMarginalLogLikelihood(ml.likelihood, ml)
         out = ml(*ml.train_inputs)
         got = mll(out, ml.train_targets)
-    ctx.close("value", got, want, rtol=1e-8, atol=1e-8)
+    # kernels with a kink at r = 0: in training mode (autograd on) the diagonal of K(X, X) is sqrt(rounding noise) ~ 1e-8 off 1
+    tol = 1e-8 if all(kern.smooth_at_zero(c["kernel"]) for c in case["members"]) else 1e-6
+    ctx.close("value", got, want, rtol=tol, atol=tol)
     ctx.set_nontrivial(len(case["members"]) >= 2)
     ctx.label("sum_mll", f"k={len(case['members'])}")
 
